@@ -79,17 +79,21 @@ FP = [bytes([1]) * 32, bytes([2]) * 32]
 # ---------------------------------------------------------------------------------------------
 # signatures of the open known findings
 
+FAMILY_POOLED = ("mix:idle", "mix:post-release", "reuse:idle-bytes", "reuse:post-release")
+FAMILY_PARTIAL = ("reuse:partial-surplus",)
+
+
 def sig_stale_parsed_while_pooled(case, params):
     """Every failure of the case is the known family: a message parsed while its connection sat in the pool
     (the bytes arrived while idle, or followed the end of the previous response in the same read) was
     delivered to a later request / that connection was handed out again."""
     kinds = case.get("kinds") or []
-    return bool(kinds) and all(k in ("mix:idle", "mix:post-release", "reuse:idle-bytes", "reuse:post-release") for k in kinds)
+    return bool(kinds) and all(k in FAMILY_POOLED for k in kinds)
 
 
 def sig_partial_surplus_reused(case, params):
     kinds = case.get("kinds") or []
-    return bool(kinds) and all(k == "reuse:partial-surplus" for k in kinds)
+    return bool(kinds) and all(k in FAMILY_PARTIAL for k in kinds)
 
 
 SIGNATURES = {"stale_parsed_while_pooled": sig_stale_parsed_while_pooled,
@@ -421,6 +425,8 @@ class Sim:
                     self.mark(c, "upgraded", tid)
                 else:
                     self.prog[c] = tok[1] if tok[1] > 0 else "done"
+                    if tok[2]:
+                        self.mark(c, "close-announced", tid)
             else:
                 self.mark(c, "garbage", tid)
         elif p == "done":
@@ -630,9 +636,12 @@ def check_case(ctx, exe, case, suite, res=None, ans=None):
     """Runs (or takes) one history, compares with the model, evaluates the oracle.  Returns the kinds found."""
     if res is None:
         res = run_history(case)
-    if ans is None:
+    if ans is None and exe is not None:
         ans = fw.run_model(exe, [model_line(case, res["events"])])[0]
-    diff, bad_ids = compare(case, res, ans)
+    if ans is None:
+        diff, bad_ids = None, None          # no model available (its build is a broken obligation): oracle only
+    else:
+        diff, bad_ids = compare(case, res, ans)
     canon = tuple(res["events"])
     ctx.case(canon, nontrivial=res["reused"] > 0)
     ctx.traces_validated += 1
@@ -649,17 +658,23 @@ def check_case(ctx, exe, case, suite, res=None, ans=None):
     for kind, text in res["violations"]:
         if kind.startswith("mix:"):
             oracle_bad.add(int(text.split("received token ")[1].split()[0]) if "received token" in text else -1)
-    if diff is None and oracle_bad != bad_ids:
+    if diff is None and bad_ids is not None and oracle_bad != bad_ids:
         ctx.disagreement(suite, {"case": case}, f"model ghost: ill-tagged deliveries {sorted(bad_ids)}", f"oracle: {sorted(oracle_bad)}")
     kinds = sorted({k for k, _ in res["violations"]})
     for k in kinds:
         ctx.count("oracle:" + k)
-    if kinds:
+    # one report per family of failures, so that a history showing two known findings at once is still
+    # recognised, while any failure outside the known families is reported on its own
+    families = {}
+    for k, t in res["violations"]:
+        fam = ("pooled" if k in FAMILY_POOLED else "partial" if k in FAMILY_PARTIAL else "other")
+        families.setdefault(fam, []).append((k, t))
+    for fam, items in sorted(families.items()):
         vcase = dict(case)
-        vcase["kinds"] = kinds
+        vcase["kinds"] = sorted({k for k, _ in items})
         vcase["suite"] = suite
-        text = "; ".join(t for _, t in res["violations"][:3])
-        ctx.violation(vcase, f"{kinds}: {text}")
+        text = "; ".join(t for _, t in items[:3])
+        ctx.violation(vcase, f"{vcase['kinds']}: {text}")
     return kinds, diff
 
 
@@ -857,7 +872,10 @@ def run_batch(ctx, exe, cases, suite):
             ctx.disagreement(suite, {"case": case}, "harness crashed", traceback.format_exc()[-800:])
             results.append(None)
     lines = [model_line(c, r["events"]) for c, r in zip(cases, results) if r is not None]
-    answers = fw.run_model(exe, lines) if lines else []
+    if exe is None:
+        answers = [None] * len(lines)
+    else:
+        answers = fw.run_model(exe, lines) if lines else []
     it = iter(answers)
     ran = 0
     for case, res in zip(cases, results):
@@ -874,7 +892,7 @@ def run(ctx):
     ok, exe = build_model()
     ctx.oblige("model-runner-build", "correspondence", ok, "" if ok else exe)
     if not ok:
-        return
+        exe = None      # the property oracle does not need the model: keep searching for a concrete failing history
     # corpus first
     corpus = []
     for p in sorted(glob.glob(os.path.join(fw.VERIF, "corpus", "C06", "*.json"))):
@@ -904,7 +922,7 @@ def replay(ctx, case):
     c = {k: v for k, v in case.items() if k not in ("kinds", "suite", "label")}
     res = run_history(c)
     ans = fw.run_model(exe, [model_line(c, res["events"])])[0] if ok else ""
-    diff, bad = compare(c, res, ans)
+    diff, bad = compare(c, res, ans) if ok else (None, set())
     kinds = sorted({k for k, _ in res["violations"]})
     return {"violates": bool(kinds), "kinds": kinds, "violations": [t for _, t in res["violations"]],
             "results": {str(k): v for k, v in res["results"].items()},
